@@ -31,6 +31,11 @@ from vf.symf import P
 from vf.solvers import I
 
 ENGINE = "S"
+
+
+def _wr(run, ob, payload):
+    """replay file of this part (the aggregator dispatches on engine_part)"""
+    return run.write_replay(ob, dict(payload, engine_part="S"))
 FUNCS = ["proofs/src/plonk/verifier.rs::parse_trace", "proofs/src/plonk/verifier.rs::verify_algebraic_constraints",
          "proofs/src/plonk/verifier.rs::prepare", "proofs/src/plonk/mod.rs::evaluate_identities",
          "proofs/src/plonk/permutation.rs::expressions", "proofs/src/plonk/lookup.rs::Evaluated::expressions",
@@ -91,7 +96,7 @@ def check_member(run, name, m):
         ob = obs["h-identity"]
         ob.key = "layout-mismatch"
         if ok:
-            ob.set(VIOLATION, f"verifier vs specification layout: {err}", replay=run.write_replay(ob, payload))
+            ob.set(VIOLATION, f"verifier vs specification layout: {err}", replay=_wr(run, ob, payload))
         else:
             ob.set(INCONCLUSIVE, f"layout mismatch did not reproduce: {err}")
         for r, o in obs.items():
@@ -193,7 +198,7 @@ def check_member(run, name, m):
             if replay(payload):
                 ob.set(VIOLATION, f"verifier's expected_h*(x^n-1) differs from the specification's y-combination; "
                        f"specification identities without a partner: {what}; real count {len(byy)} vs spec {m_spec}",
-                       solver=solver, solver_s=secs, replay=run.write_replay(ob, payload))
+                       solver=solver, solver_s=secs, replay=_wr(run, ob, payload))
             else:
                 ob.set(INCONCLUSIVE, "counterexample did not reproduce in concrete mode")
     else:
@@ -218,7 +223,7 @@ def check_member(run, name, m):
         payload = {"kind": "count", "member": mm, "real": m_real, "spec": m_spec}
         if replay(payload):
             ob.set(VIOLATION, f"verifier combines {m_real} identities, specification requires {m_spec}; missing: "
-                   + ", ".join(vr.ids[i][0] for i in missing[:5]), replay=run.write_replay(ob, payload))
+                   + ", ".join(vr.ids[i][0] for i in missing[:5]), replay=_wr(run, ob, payload))
         else:
             ob.set(INCONCLUSIVE, "count mismatch did not reproduce")
     else:
@@ -237,7 +242,7 @@ def check_member(run, name, m):
         ob.key = "query-set"
         payload = {"kind": "queries", "member": mm}
         if replay(payload):
-            ob.set(VIOLATION, "; ".join(problems[:4]) or "evaluation terms differ", replay=run.write_replay(ob, payload))
+            ob.set(VIOLATION, "; ".join(problems[:4]) or "evaluation terms differ", replay=_wr(run, ob, payload))
         else:
             ob.set(INCONCLUSIVE, "query mismatch did not reproduce")
     else:
@@ -257,7 +262,7 @@ def check_member(run, name, m):
         ob.key = "unused-proof-element"
         payload = {"kind": "unused", "member": mm}
         if replay(payload):
-            ob.set(VIOLATION, "; ".join(unused[:4]), replay=run.write_replay(ob, payload))
+            ob.set(VIOLATION, "; ".join(unused[:4]), replay=_wr(run, ob, payload))
         else:
             ob.set(INCONCLUSIVE, "did not reproduce")
     else:
@@ -408,6 +413,8 @@ def check(run):
 
 def replay(payload):
     """Re-execute a counterexample against the real code. Returns 1 if it reproduces."""
+    if payload.get("engine_part") not in (None, "S") or payload.get("kind") not in ['h-mismatch', 'layout', 'count', 'queries', 'unused']:
+        return None
     symf.build()
     m = payload["member"]
     kind = payload["kind"]
